@@ -107,6 +107,16 @@ def stepV1 (d : DState) (s : V1) (f : List String) : DState × String :=
         | none => newAnswers s.answered s'.answered
       ({ d with inst := .v1 s', used := r :: d.used }, out1 "-" done s')
     | _, _, _, _ => (d, "bad-op")
+  | "awaitst" :: a :: b :: c :: e :: _dl :: _at :: es =>
+    -- a reader racing with the store of its own key: same outcome as `await; store`
+    match a.toNat?, parseDuty b, c.toNat?, e.toNat?, parseEntries es with
+    | some r, some du, some pk, some sub, some ents =>
+      if d.used.contains r then (d, "bad-op") else
+      let (s1, err) := s.step (.query r ⟨du, pk, sub⟩)
+      let (s', err2, adds) := s1.storeSet du ents
+      let done := (match err with | some _ => [(r, "stopped")] | none => []) ++ newAnswers s.answered s'.answered
+      ({ d with inst := .v1 s', used := r :: d.used }, out1 (resStr err2 adds) done s')
+    | _, _, _, _, _ => (d, "bad-op")
   | "store" :: a :: _dl :: es =>
     match parseDuty a, parseEntries es with
     | some du, some ents =>
@@ -144,6 +154,17 @@ def stepV2 (d : DState) (s : V2) (f : List String) : DState × String :=
         | none => newAnswers s.answered s'.answered
       ({ d with inst := .v2 s', used := r :: d.used }, out2 "-" done s')
     | _, _, _, _ => (d, "bad-op")
+  | "awaitst" :: a :: b :: c :: e :: _dl :: _at :: es =>
+    match a.toNat?, parseDuty b, c.toNat?, e.toNat?, parseEntries es with
+    | some r, some du, some pk, some sub, some ents =>
+      if d.used.contains r then (d, "bad-op") else
+      let (s1, err) := V2.step bc s (.await r ⟨du, pk, sub⟩)
+      let (s2, err2) := V2.step bc s1 (.store du ents)
+      let adds := if s.stopped then 0 else (putAll s.data du ents).2.2
+      let s' := V2.settle bc fuel s2
+      let done := (match err with | some _ => [(r, "stopped")] | none => []) ++ newAnswers s.answered s'.answered
+      ({ d with inst := .v2 s', used := r :: d.used }, out2 (resStr err2 adds) done s')
+    | _, _, _, _, _ => (d, "bad-op")
   | "store" :: a :: _dl :: es =>
     match parseDuty a, parseEntries es with
     | some du, some ents =>
